@@ -96,6 +96,29 @@ func init() {
 			Outside: []string{"more than two tokens; the time at which the timer fires (C16); other policies (the token bookkeeping does not depend on the policy)"},
 			Stubs:   []string{"HMAC ideal (a tag verifies only if a key holder issued it for the same input) and collision resistant (different nonces give different keys); AES-CBC inverse pair"},
 		},
+		&Spec{
+			ID: "C05", Title: "UACP framing delivers exactly the frames sent under any segmentation",
+			Quick:    Tier{Groups: G("uacp", "^VerifH_C05_"), Params: map[string]int{"c05.len": 16, "c05.frames": 2}, Seg: true, SegCuts: 2, Budget: 200 * time.Second},
+			Thorough: Tier{Groups: G("uacp", "^VerifH_C05_"), Params: map[string]int{"c05.len": 22, "c05.frames": 3}, Seg: true, SegCuts: 3, Budget: 45 * time.Minute},
+			Reach: []string{"VerifH_C05_Frames:delivered", "VerifH_C05_Frames:badsize", "VerifH_C05_Frames:errframe", "VerifH_C05_Frames:truncated", "VerifH_C05_Frames:eof", "VerifH_C05_Frames:three",
+				"VerifH_C05_ByteWise:delivered", "VerifH_C05_ByteWise:three"},
+			Bounds: []string{"peer stream: every byte string of length 0..c05.len (16 quick / 22 thorough), i.e. every header (declared size any uint32, any type incl. ERR) and body",
+				"receive buffer in {8, 12, 24}; up to c05.frames consecutive Receive calls; reference framing written from the specification in the harness",
+				"segmentation: every placement of at most 2 (3) short reads anywhere in the stream, plus the one-byte-per-read pattern; io.ReadFull/ReadAtLeast executed from their SSA",
+				"a frame handed out earlier is frozen: any later write to it is a violation (also serves C20)"},
+			Outside: []string{"longer streams / more frames (the receive step does not depend on the offset, but that induction is not machine-checked)", "segmentations with more short reads that are not byte-wise", "receive buffers above 24 bytes with symbolic content (size arithmetic for large buffers is exercised in C06)"},
+			Stubs:   []string{"(*net.TCPConn).Read: in-memory stream; each read returns between 1 and min(len(p), available) bytes; zero-length reads return 0, nil; EOF after the stream"},
+		},
+		&Spec{
+			ID: "C06", Title: "Negotiated transport limits are honoured in both directions",
+			Quick:    Tier{Groups: []Group{{"uacp", "^VerifH_C06_"}, {"uasc", "^VerifH_C06_"}}, Budget: 200 * time.Second, Solver: "cvc5"},
+			Thorough: Tier{Groups: []Group{{"uacp", "^VerifH_C06_"}, {"uasc", "^VerifH_C06_"}}, Budget: 20 * time.Minute, Solver: "cvc5", Seg: true, SegCuts: 1},
+			Reach:    []string{"VerifH_C06_Negotiation:negotiated", "VerifH_C06_ConnLimits:sent", "VerifH_C06_ReceiveLimits:accepted", "VerifH_C06_ReceiveLimits:refused", "VerifH_C06_SendLimits:sent"},
+			Bounds: []string{"Negotiation: the real client Handshake and server srvhandshake run against each other over a pipe; all eight configured limits symbolic, buffers in [8192, 2^20], message limits any uint32 incl. 0",
+				"ReceiveLimits / SendLimits: policy None, messages of 1..3 chunks at chunk size 8192, MaxChunkCount and MaxMessageSize any uint32 incl. 0"},
+			Outside: []string{"buffer sizes below the protocol minimum 8192", "server-side send limits towards the client (the Hello's message limits are not retained by the server connection)", "messages of more than 3 chunks"},
+			Stubs:   []string{"TCP: in-memory pipe between two modelled connections, the server handshake runs as a goroutine (run-to-block scheduling)"},
+		},
 	)
 }
 
